@@ -295,7 +295,16 @@ func spell(root, cwdAbs string, d DirRef) (arg string, clean string, omit bool) 
 	}
 }
 
-func runTree(e *env, id string, spec Spec, flagsets []int, out func(string, Case)) error {
+func runTree(e *env, sem chan struct{}, id string, spec Spec, flagsets []int, out func(string, Case)) error {
+	sem <- struct{}{}
+	held := true
+	release := func() {
+		if held {
+			held = false
+			<-sem
+		}
+	}
+	defer release()
 	root := filepath.Join(e.work, id)
 	mod := "example.com/" + strings.ToLower(id)
 	if err := materialise(root, &spec, mod); err != nil {
@@ -361,7 +370,33 @@ func runTree(e *env, id string, spec Spec, flagsets []int, out func(string, Case
 		}
 	}
 
-	for _, fs := range flagsets {
+	release()
+	terms := make([]string, len(flagsets))
+	cases := make([]Case, len(flagsets))
+	errs := make([]error, len(flagsets))
+	var wg sync.WaitGroup
+	for k, fs := range flagsets {
+		wg.Add(1)
+		go func(k, fs int) {
+			defer wg.Done()
+			sem <- struct{}{}
+			defer func() { <-sem }()
+			terms[k], cases[k], errs[k] = runOne(e, id, root, mod, cwdAbs, spec, fs, world, oracle, golist, bad, nfiles, depth)
+		}(k, fs)
+	}
+	wg.Wait()
+	for k := range flagsets {
+		if errs[k] != nil {
+			return errs[k]
+		}
+		out(terms[k], cases[k])
+	}
+	return nil
+}
+
+func runOne(e *env, id, root, mod, cwdAbs string, spec Spec, fs int, world *Node,
+	oracle, golist map[string]string, bad []string, nfiles, depth int) (string, Case, error) {
+	{
 		s := spec
 		s.Recurse, s.VT, s.GRPC = fs&1 != 0, fs&2 != 0, fs&4 != 0
 		s.Flagsets = nil
@@ -408,7 +443,7 @@ func runTree(e *env, id string, spec Spec, flagsets []int, out func(string, Case
 		rc := 0
 		done := make(chan error, 1)
 		if err := c.Start(); err != nil {
-			return err
+			return "", Case{}, err
 		}
 		go func() { done <- c.Wait() }()
 		select {
@@ -470,9 +505,8 @@ func runTree(e *env, id string, spec Spec, flagsets []int, out func(string, Case
 			"; pc_runs := " + gal.Nat(cs.Runs) +
 			"; pc_stub_cwd := " + gPath(splitSegs(cs.StubCwd)) +
 			"; pc_argv := " + gal.ListOf(cs.Argv, gal.Str) + " |}"
-		out(term, cs)
+		return term, cs, nil
 	}
-	return nil
 }
 
 // ---------------------------------------------------------------- generators
@@ -801,12 +835,13 @@ func main() {
 	results := make([]res, len(specs))
 	sem := make(chan struct{}, *par)
 	var wg sync.WaitGroup
+	gate := make(chan struct{}, 2**par) // bounds the number of trees on disk at once
 	for i := range specs {
 		wg.Add(1)
-		sem <- struct{}{}
+		gate <- struct{}{}
 		go func(i int) {
 			defer wg.Done()
-			defer func() { <-sem }()
+			defer func() { <-gate }()
 			fsets := specs[i].Flagsets
 			if len(fsets) == 0 {
 				if *flagsets >= 8 {
@@ -818,7 +853,7 @@ func main() {
 				}
 			}
 			id := fmt.Sprintf("%s%d", (*mode)[:1], i)
-			results[i].err = runTree(e, id, specs[i], fsets, func(t string, c Case) {
+			results[i].err = runTree(e, sem, id, specs[i], fsets, func(t string, c Case) {
 				results[i].terms = append(results[i].terms, t)
 				results[i].cases = append(results[i].cases, c)
 			})
